@@ -220,6 +220,20 @@ def run_case(case, ctx):
 						kept.append(('session', session))
 						classes.add('handles_kept_open')
 					classes.add('edit:' + what)
+				elif t == 'lib_writable_elsewhere':
+					# the user edits a database of their own (unrelated file) with a writable session in the same process
+					from gambit.db import file_sessionmaker, Genome
+					from gambit.db.models import Base
+					from sqlalchemy.orm import Session as SASession
+					other = os.path.join(d, f'own{i}.db')
+					kw_ = {'readonly': False} if step['how'] == 'readonly_false' else {'cls': SASession}
+					mk = file_sessionmaker(other, **kw_)
+					so = mk()
+					Base.metadata.create_all(so.get_bind())
+					so.add(Genome(key=f'mine{i}', description='my own genome'))
+					so.commit()
+					so.close(); so.get_bind().dispose()
+					events.append('ok_other')
 				elif t == 'lib_open_sigs_twice':
 					from gambit.sigs.base import load_signatures
 					a = load_signatures(gs)
@@ -303,6 +317,7 @@ STEP = st.one_of(
 	          st.just(['flush', 'autoflush_query', 'commit']), st.booleans()),
 	st.just({'t': 'lib_open_sigs_twice'}),
 	st.just({'t': 'close_handles'}),
+	st.builds(lambda h: {'t': 'lib_writable_elsewhere', 'how': h}, st.sampled_from(['readonly_false', 'cls_session'])),
 )
 
 
